@@ -78,6 +78,11 @@ BAD_VALUES = [
     ("ndarray0d-float", lambda: np.array(4.0)), ("dict", lambda: {4: 4}), ("object", lambda: object()),
     ("VocabularyMap", lambda: VocabularyMap()), ("complex", lambda: 4j), ("bytes", lambda: b"4"),
     ("class", lambda: spa.Vocabulary),
+    # objects that merely HAVE an integer `dimensions` are not vocabularies
+    ("TAnyVocabOfDim", lambda: __import__("nengo_spa.types", fromlist=["x"]).TAnyVocabOfDim(4)),
+    ("TVocabulary", lambda: __import__("nengo_spa.types", fromlist=["x"]).TVocabulary(spa.Vocabulary(4))),
+    ("namespace-with-dimensions", lambda: __import__("types").SimpleNamespace(dimensions=4)),
+    ("SemanticPointer", lambda: spa.SemanticPointer(np.ones(4))),
 ]
 
 # ---------------------------------------------------------------------------------------------
